@@ -602,9 +602,9 @@ class C03Check(StreamCheckBase):
         bm = p.get("budget_manager") if isinstance(p.get("budget_manager"), dict) else None
         w = (bm or subject)["params"].get("w", p.get("window_size", p.get("cognition_window_size", 10)))
         budget = p.get("budget") or (bm["params"]["budget"] if bm else 0.1)
-        n = g.pick([20, 40, 80, 150, 300])
+        n = g.pick([20, 40, 80, 150, 300] + ([400, 400] if self.tier == "thorough" else []))
         if subject["cls"] in COGNITIVE + ["StreamDensityBasedAL"]:
-            n = min(n, 150)
+            n = min(n, 150 if self.tier != "thorough" else 250)
         family = g.pick(ADVERSARIES)
         sc = {"engine": "streamsim", "mode": "C03", "subject": subject, "family": family}
         f = rng.fork("faults")
